@@ -12,3 +12,5 @@ import P2P.Props.C02
 #print axioms P2P.Props.C02.parse_neutral_cterm_pro_refuted
 #print axioms P2P.Props.C02.formal_by_name
 #print axioms P2P.Props.C02.residue_charge_from_table
+#print axioms P2P.Props.C02.structure_total_integral
+#print axioms P2P.Props.C02.integral_total_passes_guard
